@@ -676,6 +676,19 @@ pub fn draw_plan(rng: &mut Rng, c: &Corpus, yields_on: bool) -> RunPlan {
             jobs.push(make_job(rng, c, entry, Some(&s), thread2, group2, false));
         }
     }
+    // the panicking neighbour, targeted per backend: a job whose generate step stops with a panic
+    // inside the generator (only process-global and thread-local state survives it)
+    if rng.below(4) == 0 {
+        let (id, b) = *rng.pick(&[("hand_crash_rust", Backend::Rust), ("hand_crash_python", Backend::Python), ("hand_crash_rust", Backend::Java), ("hand_crash_python", Backend::Java)]);
+        if let Some(e) = c.entries.iter().find(|e| e.id == id) {
+            let thread = rng.below(nthreads as u64) as usize;
+            let group = if share_db { 0 } else { k };
+            jobs.insert(
+                rng.below(jobs.len() as u64 + 1) as usize,
+                LJob { entry_id: e.id.clone(), text: e.text.clone(), name: format!("src/{}.pdl", e.id), exclude: vec![], custom_field: vec![], steps: vec![StepKind::Parse, StepKind::Analyze, StepKind::Generate(b)], thread, db_group: group },
+            );
+        }
+    }
     let clock = if rng.below(2) == 0 { Some((rng.range(0, 4_102_444_800) as i64, *rng.pick(&[0i64, 1000, 86_400_000_000_000]), *rng.pick(&[0i64, 3, 7]))) } else { None };
     RunPlan { jobs, nthreads, hash_seed: rng.next() | 1, clock, preload: if rng.below(3) == 0 { rng.range(1, 4) as usize } else { 0 }, schedule: None, yields_on }
 }
